@@ -6,6 +6,7 @@ import (
 	"sort"
 	"strings"
 	"sync/atomic"
+	"verif/internal/sched"
 
 	"verif/internal/core"
 )
@@ -260,8 +261,14 @@ func runC14(env *core.Env) {
 	}
 	b.Run()
 	validated := b.Conf.run(env)
+	cf := buildConcFix(env)
+	concCov := concPhase(env, "C14", []sched.Scenario{
+		{Name: "prune||new-task-in-empty-epic", Store: cf.SA, Procs: []core.Req{core.R("", "--json", "prune", "--yes"), core.R("", "--json", "new", "task").In(jsonStr(map[string]string{"title": "late child", "epic": cf.E2}))}},
+		{Name: "prune||set-epic-to-empty-epic", Store: cf.SA, Procs: []core.Req{core.R("", "--json", "prune", "--yes"), core.R("", "--json", "set", cf.T1).In(jsonStr(map[string]string{"epic": cf.E2}))}},
+		{Name: "prune||plan", Store: cf.SA, Procs: []core.Req{core.R("", "--json", "prune", "--yes"), core.R("", "--json", "plan").In(`{"title":"P","tasks":[{"title":"pa"}]}`)}},
+	}, invC14)
 	env.Finish("model_checking", map[string]interface{}{
-		"states": b.States, "transitions": b.Transitions, "traces_validated_against_impl": validated,
+		"states": b.States, "transitions": b.Transitions, "traces_validated_against_impl": validated, "concurrent": concCov,
 		"samples": samples.list, "exhaustive": b.Exhaustive, "cap_hit": b.CapHit, "bfs_depth": b.DepthDone,
 		"bound":                      fmt.Sprintf("<=%d tasks, <=%d epics live, <=3 tombstones; BFS to fixpoint on the canonical graph", maxTasks, maxEpics),
 		"bad_epic_requests_rejected": rejBad, "bad_epic_requests_accepted": accBad, "valid_epic_requests_accepted": accGood, "valid_epic_requests_rejected": rejGood,
